@@ -1171,6 +1171,107 @@ func c18(r *Report) {
 		}
 	})
 
+	r.Guard("C18.R8", "a bucket hands its callback exactly the capacity that is left, whenever some is left, and accounts for what the callback used", func() {
+		// evaluated on (fill, capacity) in {0,3,10,12} x {10}: the callback runs when fill < capacity
+		// (otherwise a write waits for ever), never when fill > capacity (a negative allowance slices
+		// out of range), with capacity - fill as its argument, and what it returns is added to the fill
+		for _, mn := range []string{"FillThrottle", "FillThrottleLocked", "Fill"} {
+			fn := w.Fn("trafficshape", "Bucket."+mn)
+			if fn == nil || fn.Blocks == nil {
+				r.Undecided("M/trafficshape.Bucket."+mn, "UNRESOLVED")
+				continue
+			}
+			r.Touch(fn)
+			atomicField := func(v ssa.Value) string {
+				c, isC := v.(*ssa.Call)
+				if !isC || calleeName(c) != "sync/atomic.LoadInt64" {
+					return ""
+				}
+				if fa, isFa := c.Call.Args[0].(*ssa.FieldAddr); isFa {
+					return fieldObj(fa).Name()
+				}
+				return ""
+			}
+			var cb *ssa.Call
+			for _, c := range calls(fn) {
+				if cc, isC := c.(*ssa.Call); isC && !cc.Call.IsInvoke() && isParamVal(cc.Call.Value, fn.Params[1]) {
+					cb = cc
+				}
+			}
+			var cmp *ssa.BinOp
+			for _, in := range instrs(fn) {
+				if b, isB := in.(*ssa.BinOp); isB && cmp == nil {
+					fx, fy := atomicField(b.X), atomicField(b.Y)
+					if (fx == "fill" && fy == "capacity") || (fx == "capacity" && fy == "fill") {
+						cmp = b
+					}
+				}
+			}
+			if cb == nil || cmp == nil {
+				r.Undecided("M/trafficshape.Bucket."+mn+": callback and fill/capacity comparison", "callback call or comparison not found")
+				continue
+			}
+			okRun, okArg, detail := true, true, ""
+			for _, fill := range []int64{0, 3, 10, 12} {
+				const capv = int64(10)
+				val := func(v ssa.Value) (int64, bool) {
+					switch atomicField(v) {
+					case "fill":
+						return fill, true
+					case "capacity":
+						return capv, true
+					}
+					return 0, false
+				}
+				out, okD := decide(cmp.Block(), func(v ssa.Value) (bool, bool) {
+					b, isB := v.(*ssa.BinOp)
+					if !isB {
+						return false, false
+					}
+					ev := &miniEval{leaf: val}
+					x, okx := ev.Int(b.X)
+					y, oky := ev.Int(b.Y)
+					if !okx || !oky {
+						return false, false
+					}
+					return cmpHolds(b.Op, x, y), true
+				})
+				if !okD || out == nil {
+					okRun, detail = false, "the decision could not be evaluated"
+					continue
+				}
+				runs := out == cb.Block()
+				switch {
+				case fill < capv && !runs:
+					okRun, detail = false, fmt.Sprintf("with fill %d of %d the callback is not run: the write waits although capacity is left", fill, capv)
+				case fill > capv && runs:
+					okRun, detail = false, fmt.Sprintf("with fill %d of %d the callback is run with a negative allowance", fill, capv)
+				}
+				if runs && fill <= capv {
+					ev := &miniEval{leaf: val}
+					a, oka := ev.Int(cb.Call.Args[0])
+					if !oka || a != capv-fill {
+						okArg = false
+						detail = fmt.Sprintf("with fill %d of %d the callback is given %d (evaluated: %v)", fill, capv, a, oka)
+					}
+				}
+			}
+			r.Sites++
+			r.Decide("table", "(*M/trafficshape.Bucket)."+mn+": the callback runs exactly while capacity is left", okRun, "fill {0,3,10,12} of 10: runs when below, not when above", detail+": shaped bytes are never delivered, or the slice bound is negative", cmp.Pos())
+			r.Decide("table", "(*M/trafficshape.Bucket)."+mn+": the callback's allowance is capacity - fill", okArg, "evaluated on fill {0,3,10} of 10", detail+": more than the configured bandwidth passes per interval (the throttle adds less than its delay), or less", cb.Pos())
+			// the callback's count is added to the fill
+			okAdd := false
+			for _, c := range calls(fn, "sync/atomic.AddInt64") {
+				if fa, isFa := c.Common().Args[0].(*ssa.FieldAddr); isFa && fieldObj(fa).Name() == "fill" {
+					if ex, isEx := c.Common().Args[1].(*ssa.Extract); isEx && ex.Tuple == ssa.Value(cb) && ex.Index == 0 {
+						okAdd = true
+					}
+				}
+			}
+			r.Decide("flow", "(*M/trafficshape.Bucket)."+mn+": what the callback used is added to the fill", okAdd, "atomic.AddInt64(&b.fill, n) with the callback's count", "the callback's count is not added to the fill: the bucket never fills and the throttle adds no delay", cb.Pos())
+		}
+	})
+
 	r.Guard("C18.R7", "buckets created for a connection or a shape are closed when it goes away", func() {
 		// the configured latency is slept once, before a connection's first read and first
 		// write, on every path that leads to I/O
